@@ -305,6 +305,17 @@ def check_fll_text(ctx, case, text, label="fll") -> str:
         return "rejected"
     try:
         t1 = EX.to_string(e)
+    except Exception as ex:  # noqa: BLE001
+        ctx.fail(f"accepted-fll-unusable-{type(ex).__name__}", case,
+                 {"text": text[:800], "exception": f"{type(ex).__name__}: {ex}"[:300]})
+    names = [v.name for v in e.variables]
+    if len(set(names)) != len(names) or any(len({t.name for t in v.terms}) != len(v.terms) for v in e.variables):
+        # two variables (or two terms of a variable) with the same name: the engine is exportable, which is all the
+        # statement asks; which of the namesakes a rule means depends on the order of the blocks in the text, so the
+        # export (variables first) need not re-import - unique names are an implicit precondition of every engine
+        ctx.cls("accepted_fll_with_duplicate_names")
+        return "accepted"
+    try:
         t2 = EX.to_string(IM.from_string(t1))
     except Exception as ex:  # noqa: BLE001
         ctx.fail(f"accepted-fll-unusable-{type(ex).__name__}", case,
